@@ -34,9 +34,9 @@ let rec of_rtype (t : Model.rtype) : sx =
   | Model.RPrim p -> L [A "prim"; A (name_of_prim p)]
 
 let to_id = function
-  | L [A "id"; o; r; b] -> { Model.original = to_str o; Model.renamed = to_str r; Model.serde_rename = to_bool b }
+  | L [A "id"; o; r; b] -> { Model.original = to_str o; Model.renamed = to_str r; Model.via_serde_rename = to_bool b }
   | _ -> raise (Bad "id")
-let of_id (i : Model.id) = L [A "id"; str_to_atom i.Model.original; str_to_atom i.Model.renamed; of_bool i.Model.serde_rename]
+let of_id (i : Model.id) = L [A "id"; str_to_atom i.Model.original; str_to_atom i.Model.renamed; of_bool i.Model.via_serde_rename]
 
 let lang_names = ["Go", Model.Go; "Kotlin", Model.Kotlin; "Scala", Model.Scala; "Swift", Model.Swift; "TypeScript", Model.TypeScript; "Python", Model.Python]
 let to_lang = function A n -> (try List.assoc n lang_names with Not_found -> raise (Bad ("lang " ^ n))) | _ -> raise (Bad "lang")
